@@ -70,6 +70,10 @@ PM_CLASSES = [
     ('remove-type_def-never', lambda cl, last, prev: 'remove!' in last,
      'remove!(value: <any-typed>, …) is typed `never` (type_def only adds array/object when the value is EXACTLY an array/object): the returned object is outside the result type'),
     ('map_values-on-variable', lambda cl, last, prev: False, ''),
+    ('negative-index-typing', lambda cl, last, prev: any('[-' in p for p in prev),
+     'Kind::insert/remove with a negative index assume the array length they can prove (and pad at the wrong end past the front): `x = [1, "s"]; x[-3] = 1` types x as [integer, string, null] while it holds [1, 1, "s"] (pinned by value::kind::crud::insert::tests::test_insert)'),
+    ('path-insert-into-union-of-containers', lambda cl, last, prev: last.startswith(('x[', 'x.', 'y[', 'y.')) and any(p.startswith('if (') for p in prev),
+     'Kind::insert on a kind that is a UNION of an array and an object (variable assigned different containers in the two branches of an if) keeps the known elements of the matching alternative as required although the value may have been the other alternative and is rebuilt from scratch: `if (x = [1]; .c == true) { x = {} } else { y = x }; x[2] = 1` holds [null, null, 1], typed [integer, null, integer] (same root cause as C19 insert-into-non-container-alternative)'),
     ('conditional-mutation-then-index-crud', lambda cl, last, prev: any(p.startswith('if .c == true {') for p in prev),
      'after a conditional mutation the merged array/object type keeps per-index knowledge (`[string or integer, boolean or undefined]`, `integer or array`) that later index insert/delete/push/compact operations treat as exact: elements end up at other positions than their types'),
 ]
